@@ -1,8 +1,19 @@
 // The synchronization primitives redb locks with. std's are used whenever it is available; builds
 // without it get the spinning implementations below.
 
+#[cfg(not(redb_verif))]
 #[cfg(not(redb_no_std))]
 pub(crate) use std::sync::{
+    Condvar, Mutex, MutexGuard, PoisonError, RwLock, RwLockReadGuard, RwLockWriteGuard,
+};
+
+// The verification harness's build (--cfg redb_verif) swaps in instrumented wrappers with the same
+// API; see sync_verif.rs
+#[cfg(all(redb_verif, not(redb_no_std)))]
+#[path = "sync_verif.rs"]
+pub(crate) mod verif;
+#[cfg(all(redb_verif, not(redb_no_std)))]
+pub(crate) use verif::{
     Condvar, Mutex, MutexGuard, PoisonError, RwLock, RwLockReadGuard, RwLockWriteGuard,
 };
 
